@@ -52,6 +52,45 @@ def state_fields():
     return out
 
 
+
+def _alias_written(key, var):
+    """the local pointer `var` of function `key` is stored through or passed to a non-const pointer parameter"""
+    from .. import modref as _mr
+    try:
+        u = engine.unit(key[0])
+    except Exception:
+        return True
+    fn = u.funcs.get(key[1])
+    if fn is None:
+        for tu in engine.engine_tus():
+            fn = engine.unit(tu).funcs.get(key[1])
+            if fn is not None:
+                break
+    if fn is None:
+        return True
+    ids = {x.get("id") for x in cir.walk(fn) if x.get("k") == "VarDecl" and x.get("n") == var}
+
+    def rooted(e):
+        e = cir.strip(e)
+        while e is not None and e.get("k") in ("ArraySubscriptExpr", "UnaryOperator", "BinaryOperator", "MemberExpr"):
+            e = cir.strip(cir.kids(e)[0])
+        return e is not None and e.get("k") == "DeclRefExpr" and (e.get("ref") or {}).get("id") in ids
+    for x in cir.walk(fn):
+        k = x.get("k")
+        if (k == "BinaryOperator" and x.get("op") == "=") or k == "CompoundAssignOperator" or (k == "UnaryOperator" and x.get("op") in ("++", "--")):
+            l = cir.strip(cir.kids(x)[0])
+            if l is not None and l.get("k") in ("ArraySubscriptExpr", "UnaryOperator") and l.get("op", "*") == "*" and rooted(l):
+                return True
+        if cir.is_call(x):
+            ce = cir.callee_expr(x)
+            pt = _mr._param_types((ce.get("ref") or {}).get("t") if ce is not None and ce.get("k") == "DeclRefExpr" else None)
+            for j, a in enumerate(cir.args(x)):
+                if rooted(a) and "*" in (cir.strip(a).get("t") or "*"):
+                    if j >= len(pt) or not _mr._const_pointee(pt[j]):
+                        return True
+    return False
+
+
 def run(res, tier):
     uf = engine.unit(FWD)
     ui = engine.unit(INV)
@@ -151,6 +190,11 @@ def run(res, tier):
     for k in sorted(clo):
         f = g.funcs[k]
         hits = [e for e in f["events"] if e["struct"] == "mjData" and e["field"] in sf and e["kind"] in ("assign", "elem", "pass", "addr")]
+        # a non-const local pointer into a state array that the function then writes through (store, or handed to a non-const
+        # parameter) is a write of that array
+        for e in f["events"]:
+            if e["struct"] == "mjData" and e["field"] in sf and e["kind"] == "alias" and e.get("var") and _alias_written(k, e["var"]):
+                hits.append(dict(e, kind=f"alias `{e['var']}` written through"))
         if not hits:
             res.ok("R-MODSET", k[1], None)
             continue
